@@ -68,7 +68,9 @@ func (m Mut) Apply(seed []byte) ([]byte, error) {
 // ApplyTo is Apply re-using dst's storage.
 func (m Mut) ApplyTo(dst, seed []byte) ([]byte, error) {
 	dst = dst[:0]
-	bad := func() ([]byte, error) { return nil, fmt.Errorf("bytemut: %+v does not fit a %d-byte seed", m, len(seed)) }
+	bad := func() ([]byte, error) {
+		return nil, fmt.Errorf("bytemut: %+v does not fit a %d-byte seed", m, len(seed))
+	}
 	switch m.Kind {
 	case KindID:
 		return append(dst, seed...), nil
@@ -378,10 +380,10 @@ func ReadBigSize(b []byte) (v uint64, n int, minimal bool) {
 
 // TLVRecord is one record located by ParseTLV.
 type TLVRecord struct {
-	Type           uint64
-	Len            uint64
+	Type            uint64
+	Len             uint64
 	TypeOff, LenOff int // offsets of the two BigSize prefixes
-	ValOff         int // offset of the value
+	ValOff          int // offset of the value
 }
 
 // ParseTLV is an independent reference parser for a BOLT-1 TLV stream occupying
